@@ -201,7 +201,7 @@ func (n *namer) genCmdBody(c *Cmd) {
 				a.Req = "yes"
 			}
 			if r.Chance(cfg.PDesc, 100) {
-				a.Desc = fmt.Sprintf("pd%03d positional text", id)
+				a.Desc = fmt.Sprintf("pd%03d positional text", id) + r.Pick([]string{"", "", "", " 100%", " %d"})
 			}
 			if r.Chance(cfg.PPosLongTag, 100) {
 				a.ExtraLong = fmt.Sprintf("pl%03d", id)
@@ -256,7 +256,7 @@ func (n *namer) genCmdBody(c *Cmd) {
 			sc.SubOptional = r.Chance(cfg.PSubOptional, 100)
 			sc.Hidden = r.Chance(cfg.PHiddenCmd, 100)
 			if r.Chance(cfg.PDesc, 100) {
-				sc.Desc = fmt.Sprintf("cd%03d command text", id)
+				sc.Desc = fmt.Sprintf("cd%03d command text", id) + r.Pick([]string{"", "", "", " 100%", " %v"})
 			}
 			if r.Chance(cfg.PExec, 100) {
 				sc.Exec = true
@@ -419,7 +419,7 @@ func (n *namer) genOpt(g *Grp, c *Cmd) *Opt {
 		o.Base = 16
 	}
 	if r.Chance(cfg.PDesc, 100) {
-		o.Desc = fmt.Sprintf("d%03d option text", id)
+		o.Desc = fmt.Sprintf("d%03d option text", id) + r.Pick([]string{"", "", "", " 100%", " %d items", " 5%s", " 50%%"})
 	}
 	if r.Chance(cfg.PValueName, 100) && !t.IsFlag() {
 		o.ValueName = fmt.Sprintf("V%03d", id)
@@ -483,6 +483,9 @@ func (n *namer) genOpt(g *Grp, c *Cmd) *Opt {
 		}
 	}
 	o.Required = r.Chance(cfg.PRequired, 100)
+	if r.Chance(1, 4) {
+		o.TruthText = r.Pick([]string{"yes", "1", "False", "NO", "TRUE", "x", "No", "00"})
+	}
 	o.Prog = (o.Required || len(o.Choices) > 0 || o.Hidden || o.DefaultMask != "") && r.Chance(cfg.PProgAttr, 100)
 	if r.Chance(cfg.PIniName, 100) {
 		o.IniName = fmt.Sprintf("ini%03d", id)
